@@ -15,6 +15,15 @@ import (
 
 const verifRoot = "/verif"
 
+// outRoot is where evidence and replay files are written: /verif, or a scratch directory when the corpus scripts run
+// the checks against a patched scratch copy (ROSVC_OUT), so that those runs never overwrite the real evidence.
+func outRoot() string {
+	if d := os.Getenv("ROSVC_OUT"); d != "" {
+		return d
+	}
+	return verifRoot
+}
+
 type KnownFinding struct {
 	Property   string `json:"property"`
 	Obligation string `json:"obligation"`
@@ -167,7 +176,7 @@ func cmdCheck(repo, prop, tier string) int {
 	var samples []map[string]interface{}
 	var knownLines []string
 	seen := map[string]bool{}
-	os.MkdirAll(filepath.Join(verifRoot, "replays", prop), 0755)
+	os.MkdirAll(filepath.Join(outRoot(), "replays", prop), 0755)
 	var boundedList []map[string]interface{}
 	nBounded := 0
 	for _, o := range all {
@@ -295,9 +304,9 @@ func cmdCheck(repo, prop, tier string) int {
 		"wall_s":      round2(time.Since(t0).Seconds()),
 		"violations":  violations,
 	}
-	os.MkdirAll(filepath.Join(verifRoot, "evidence"), 0755)
+	os.MkdirAll(filepath.Join(outRoot(), "evidence"), 0755)
 	data, _ := json.MarshalIndent(ev, "", " ")
-	if err := os.WriteFile(filepath.Join(verifRoot, "evidence", prop+".json"), data, 0644); err != nil {
+	if err := os.WriteFile(filepath.Join(outRoot(), "evidence", prop+".json"), data, 0644); err != nil {
 		return broken("evidence: %v", err)
 	}
 	fmt.Printf("property=%s tier=%s obligations=%d discharged=%d bounded=%d violations=%d paths=%d wall=%.1fs\n",
@@ -319,7 +328,7 @@ func (kf *KnownFile) match(prop, obl string) *KnownFinding {
 
 // writeReplay stores everything known about a failed obligation.
 func (e *Engine) writeReplay(prop string, o *Obligation, tier string) string {
-	dir := filepath.Join(verifRoot, "replays", prop)
+	dir := filepath.Join(outRoot(), "replays", prop)
 	os.MkdirAll(dir, 0755)
 	base := filepath.Join(dir, sanitize(o.ID))
 	smtPath := ""
